@@ -58,6 +58,7 @@ def main():
         files = pipeline.corpus_programs("regress") + [f for f in files if "/corpus/regress/" not in f]
         drivers = {}
         links = {}
+        tags = {}
         link_fail = []
         e2e_n = 0
         for path in files:
@@ -83,6 +84,8 @@ def main():
             # --- decidable content of the hypotheses of C01_composition (links) on this program
             ln = lad.ask("links %s" % path)
             links["OK" if ln and ln.startswith("OK") else (ln or "none").split(" ")[0]] = links.get("OK" if ln and ln.startswith("OK") else (ln or "none").split(" ")[0], 0) + 1
+            for tag_ in (ln or "").split()[1:] if ln and ln.startswith("OK") else []:
+                tags[tag_] = tags.get(tag_, 0) + 1
             if ln and ln.startswith("FAIL") and not ('(call "main"' in st["S1"][1] and lad.ask("typ nomaincall %s" % lad.dump(st, "S1")) == "OK false"):
                 link_fail.append({"file": path, "links": ln[:200]})
             okA, msg, obj = native.assemble_x86(st["S7x"][1], d)
@@ -133,6 +136,7 @@ def main():
         shutil.rmtree(os.path.join(common.WORK, "target_scc"), ignore_errors=True)
     if ok_h and okm:
         chk.notes["links_histogram"] = links
+        chk.notes["links_tags"] = tags  # frag = inside the fragment where the fun2core simulation is a THEOREM; int = the x86 link is a theorem too
         chk.obligation("links:hypotheses of C01_composition hold on every accepted program of the run (decidable content)", "correspondence", not link_fail, json.dumps(link_fail[:3])[:400])
         chk.obligation("corr:composed model (Scc.Pipeline) vs real compiler, S1 -> x86-64 text; model-only end-to-end instances", "correspondence", chk.corr["disagreements"] == 0, "%d compared, %d disagreements" % (chk.corr["compared"], chk.corr["disagreements"]))
         if link_fail or chk.corr["disagreements"]:
